@@ -247,6 +247,7 @@ void  XMLBigDecimal::parseDecimal(const XMLCh* const toParse
     }
 
     // Strip leading zeros
+    const XMLCh* const firstDigitPtr = startPtr;
     while (*startPtr == chDigit_0)
         startPtr++;
 
@@ -295,6 +296,10 @@ void  XMLBigDecimal::parseDecimal(const XMLCh* const toParse
         normalization: remove all trailing zero after the '.'
                        and adjust the scaleValue as well.
     ***/
+    // a lone '.' (no digit at all) is not a decimal
+    if (totalDigits == 0 && startPtr == firstDigitPtr + 1)
+        ThrowXMLwithMemMgr(NumberFormatException, XMLExcepts::XMLNUM_Inv_chars, manager);
+
     while ((fractDigits > 0) && (*(retPtr-1) == chDigit_0))          
     {
         retPtr--;
@@ -348,6 +353,7 @@ void  XMLBigDecimal::parseDecimal(const XMLCh*         const toParse
     }
 
     // Strip leading zeros
+    const XMLCh* const firstDigitPtr = startPtr;
     while (*startPtr == chDigit_0)
         startPtr++;
 
@@ -381,6 +387,10 @@ void  XMLBigDecimal::parseDecimal(const XMLCh*         const toParse
         startPtr++;
 
     }
+
+    // a lone '.' (no digit at all) is not a decimal
+    if (dotSignFound && startPtr == firstDigitPtr + 1)
+        ThrowXMLwithMemMgr(NumberFormatException, XMLExcepts::XMLNUM_Inv_chars, manager);
 
     return;
 }
